@@ -168,6 +168,13 @@ def r_dispatch(repo, rep, R='R19.2'):
         d = default.value if isinstance(default, ast.Constant) else None
         rep.check(d in chs, R, 'depccg/argparse.py:%s parse_args' % node.lineno, 'argparse:%s:default' % parser,
                   'the default format %r of %s is one of its choices' % (d, parser), 'default format %r is not among the choices' % d)
+    # the failure placeholder's score is -inf: serialisers of the score must accept non-finite floats
+    for n in ast.walk(pm.tree):
+        if isinstance(n, ast.Call) and src(n.func) in ('json.dumps', 'json.dump'):
+            kw = {k.arg: k.value for k in n.keywords}
+            strict = 'allow_nan' in kw and not (isinstance(kw['allow_nan'], ast.Constant) and kw['allow_nan'].value is True)
+            rep.check(not strict, R, '%s:%s to_string' % (pm.rel, n.lineno), 'to_string:json:non-finite',
+                      'the json format can serialise the placeholder\'s score (-inf)', 'json serialisation refuses non-finite floats (allow_nan=%s): a failed sentence (score -inf) aborts the whole batch' % src(kw['allow_nan']) if strict else '')
     # imported encoders exist
     for k, v in zip(fm.keys, fm.values):
         rep.check(isinstance(v, ast.Name), R, '%s:%s <module>' % (pm.rel, v.lineno), 'formatters:%s' % src(k), 'formatter %s is a named encoder' % src(k),
